@@ -44,6 +44,11 @@ func checkC01(c *Ctx) error {
 	if err != nil {
 		return err
 	}
+	// the command must hand the bytes of the file to the compiler as they are: programs whose LAST
+	// line ends in a blank always go through the CLI binary too
+	rp.cliAlways = func(cs *AsmCase) bool {
+		return len(cs.Lines) > 0 && strings.HasSuffix(cs.Lines[len(cs.Lines)-1], " ") && caseHash(cs.Lines, c.Seed)%4 == 0
+	}
 	ex, err := c.runTLC(TLCRun{Module: "MC_C01", Seed: c.Seed, Timeout: 40 * time.Minute,
 		Constants: with("MaxLines", "= "+exLines, "MaxDepth", "= "+exDepth, "Export", "= TRUE", "Theorem", "= FALSE"),
 		Invs:      []string{"Compiles", "StackShape", "ExportCase"}}, rp.onCase)
